@@ -3,6 +3,7 @@
 use crate::common::*;
 use crate::ts::Rng;
 
+use mina::prelude::Easing;
 use mina_core::easing::EasingFunction;
 use mina_core::interpolation::Lerp;
 use serde_json::{json, Value};
@@ -30,6 +31,17 @@ pub fn easing_tables(path: &str) -> Value {
             let i = (e.calc(xi as f32) as f64 - by).abs();
             if i > err_i { err_i = i; worst_i = json!({"x": xi, "curve_y_at_t_eq_x": by, "calc": e.calc(xi as f32)}); }
         }
+        // the as-found evaluation (curve y at parameter t = x) also on a dense set incl. the immediate
+        // neighbourhoods of 0 and 1, with the polynomial evaluated from the SPEC's control points
+        let cp: Vec<f64> = line["cp"].as_array().unwrap().iter().map(|v| v.as_i64().unwrap() as f64 / 100.0).collect();
+        let by = |t: f64| if id == 10 { t } else { 3.0 * (1.0 - t) * (1.0 - t) * t * cp[1] + 3.0 * (1.0 - t) * t * t * cp[3] + t * t * t };
+        let mut xs: Vec<f32> = (0..=4096).map(|j| j as f32 / 4096.0).collect();
+        for k in 1..=30 { xs.push((2.0f32).powi(-k)); xs.push(1.0 - (2.0f32).powi(-k)); xs.push(3.0 * (2.0f32).powi(-k)); }
+        for &x in &xs {
+            if !(0.0..=1.0).contains(&x) { continue; }
+            let i = (e.calc(x) as f64 - by(x as f64)).abs();
+            if i > err_i { err_i = i; worst_i = json!({"x": x, "curve_y_at_t_eq_x": by(x as f64), "calc": e.calc(x)}); }
+        }
         let class = if err_d <= 2e-4 { "definition" } else if err_i <= 2e-5 { "param-as-x" } else { "other" };
         out.push(json!({"id": id, "easing": BUILTIN_NAMES[(id - 10) as usize], "class": class, "max_err_definition": err_d, "max_err_param": err_i,
                         "worst_definition": worst_d, "worst_param": worst_i, "points": n + 1}));
@@ -42,6 +54,11 @@ pub fn easing_tables(path: &str) -> Value {
         for j in 0..=2048 { let x = j as f32 / 2048.0; custom_checked += 1;
             if e.calc(x).to_bits() != f.calc(x).to_bits() && custom_bad.len() < 5 { custom_bad.push(json!({"custom": id, "x": x, "given": f.calc(x), "used": e.calc(x)})); } }
     }
+    // different custom easings evaluated back to back at the same x must not influence each other
+    let customs: Vec<(i64, Easing, Box<dyn EasingFunction>)> = vec![(2, easing(2), Box::new(Sq)), (3, easing(3), Box::new(OutSq)), (4, easing(4), Box::new(Over)), (5, easing(5), Box::new(Under))];
+    for j in 0..=512 { let x = j as f32 / 512.0;
+        for (id, e, f) in &customs { custom_checked += 1;
+            if e.calc(x).to_bits() != f.calc(x).to_bits() && custom_bad.len() < 5 { custom_bad.push(json!({"custom": id, "x": x, "given": f.calc(x), "used": e.calc(x), "order": "alternating"})); } } }
     json!({"easings": out, "custom_checked": custom_checked, "custom_bad": custom_bad})
 }
 
@@ -133,7 +150,7 @@ pub fn drive_lerp(seed: u64, full8: bool, out: &str) -> Value {
     }
     // values beyond 2^31 for the 64-bit types: mantissa * 2^s (exactly representable in f32)
     for _ in 0..(if full8 { 2000 } else { 200 }) {
-        let (ma, mb, s) = (rng.below(4096) as i64, rng.below(4096) as i64, 20 + rng.below(31) as u32);
+        let (ma, mb, s) = (rng.below(4096) as i64, rng.below(4096) as i64, 20 + rng.below(33) as u32);   // up to 4095 * 2^52: beyond 2^63
         let sc = |m: i64| (m as u64) << s;
         let mut r = vec![]; let mut ok = true;
         for &(n, d) in &xs16 { match catch_unwind(AssertUnwindSafe(|| sc(ma).lerp(&sc(mb), n as f32 / d as f32))) { Ok(v) => r.push(((v as u128 * 16) >> s) as i64), Err(_) => { ok = false; break; } } }
@@ -147,7 +164,8 @@ pub fn drive_lerp(seed: u64, full8: bool, out: &str) -> Value {
     }
     // float types on small integers and dyadic x: exact
     for _ in 0..(if full8 { 4000 } else { 400 }) {
-        let (a, b) = (rng.below(8192) as i64 - 4096, rng.below(8192) as i64 - 4096);
+        let (mut a, mut b) = (rng.below(8192) as i64 - 4096, rng.below(8192) as i64 - 4096);
+        match rng.below(12) { 0 => { a = 0; b = 0; } 1 => { a = 0; } 2 => { b = 0; } 3 => { b = a; } _ => {} }
         let r32: Vec<i64> = xs16.iter().map(|&(n, d)| ((a as f32).lerp(&(b as f32), n as f32 / d as f32) as f64 * 16.0) as i64).collect();
         let r64: Vec<i64> = xs16.iter().map(|&(n, d)| ((a as f64).lerp(&(b as f64), n as f32 / d as f32) * 16.0) as i64).collect();
         put(json!({"ev": "lerpf", "ty": "f32", "a": a, "b": b, "r": r32}), &mut f);
